@@ -2,8 +2,9 @@
 
   * AxolotlManager.decrypt_pkmsg / decrypt_msg / group_decrypt: the ciphertext goes to the cipher of THAT sender (group: that group and
     participant) exactly once; what comes back is the cipher's plaintext with the padding stripped (v2) or as it is; the library's
-    NoSession / InvalidKeyId / InvalidMessage / DuplicateMessage conditions surface as the library-independent exceptions the layer
-    dispatches on (untrusted identity propagates as it is);
+    NoSession / InvalidKeyId / InvalidMessage / DuplicateMessage conditions surface as the library-independent exceptions of the SAME
+    name the layer dispatches on - each one exactly when the cipher raised that one - and anything else (untrusted identity) propagates
+    as it is;
   * handlePreKeyWhisperMessage / handleWhisperMessage / handleSenderKeyMessage: one decryption, of this stanza's enc payload, for its
     author; a v2 payload is parsed (sender-key distribution is processed); exactly ONE stanza goes upward and nothing downward: the
     envelope rebuilt from the parsed entity with one proto child carrying exactly the decrypted plaintext and the enc's media type;
@@ -39,11 +40,14 @@ def decrypt_pkmsg(self: Obj("AxolotlManager"), senderid: Str, data: Bytes, unpad
     ensures(n_events("PreKeyWhisperMessage") == 1 and event_kwarg("PreKeyWhisperMessage", 0, "serialized") == data)
     ensures(n_events("cipher.decryptPkmsg") == 1 and same_obj(event_arg("cipher.decryptPkmsg", 0, 1), event_result("PreKeyWhisperMessage", 0)))
     ensures(result == (stripped(event_result("cipher.decryptPkmsg", 0)) if unpad else event_result("cipher.decryptPkmsg", 0)))
-    raises(NoSessionException, may=True)
-    raises(InvalidKeyIdException, may=True)
-    raises(InvalidMessageException, may=True)
-    raises(DuplicateMessageException, may=True)
-    propagates("*")
+    raises(NoSessionException, may=True, ensures=event_raised_class("cipher.decryptPkmsg", 0, "NoSessionException") or event_raised_class("get_session_cipher", 0, "NoSessionException"))
+    raises(InvalidKeyIdException, may=True, ensures=event_raised_class("cipher.decryptPkmsg", 0, "InvalidKeyIdException") or event_raised_class("get_session_cipher", 0, "InvalidKeyIdException"))
+    raises(InvalidMessageException, may=True, ensures=event_raised_class("cipher.decryptPkmsg", 0, "InvalidMessageException") or event_raised_class("get_session_cipher", 0, "InvalidMessageException"))
+    raises(DuplicateMessageException, may=True, ensures=event_raised_class("cipher.decryptPkmsg", 0, "DuplicateMessageException") or event_raised_class("get_session_cipher", 0, "DuplicateMessageException"))
+    # an exception of the cipher that is none of these reaches the caller as it is (untrusted identity among them)
+    propagates("cipher.decryptPkmsg", ensures=not event_raised_class("cipher.decryptPkmsg", 0, "NoSessionException") and not event_raised_class("cipher.decryptPkmsg", 0, "InvalidKeyIdException") and not event_raised_class("cipher.decryptPkmsg", 0, "InvalidMessageException") and not event_raised_class("cipher.decryptPkmsg", 0, "DuplicateMessageException"))
+    propagates("get_session_cipher", ensures=not event_raised_class("get_session_cipher", 0, "NoSessionException") and not event_raised_class("get_session_cipher", 0, "InvalidKeyIdException") and not event_raised_class("get_session_cipher", 0, "InvalidMessageException") and not event_raised_class("get_session_cipher", 0, "DuplicateMessageException"))
+    propagates("PreKeyWhisperMessage")
 
 
 @contract(MGR, "AxolotlManager.decrypt_msg")
@@ -52,11 +56,14 @@ def decrypt_msg(self: Obj("AxolotlManager"), senderid: Str, data: Bytes, unpad: 
     ensures(n_events("WhisperMessage") == 1 and event_kwarg("WhisperMessage", 0, "serialized") == data)
     ensures(n_events("cipher.decryptMsg") == 1 and same_obj(event_arg("cipher.decryptMsg", 0, 1), event_result("WhisperMessage", 0)))
     ensures(result == (stripped(event_result("cipher.decryptMsg", 0)) if unpad else event_result("cipher.decryptMsg", 0)))
-    raises(NoSessionException, may=True)
-    raises(InvalidKeyIdException, may=True)
-    raises(InvalidMessageException, may=True)
-    raises(DuplicateMessageException, may=True)
-    propagates("*")
+    raises(NoSessionException, may=True, ensures=event_raised_class("cipher.decryptMsg", 0, "NoSessionException") or event_raised_class("get_session_cipher", 0, "NoSessionException"))
+    raises(InvalidKeyIdException, may=True, ensures=event_raised_class("cipher.decryptMsg", 0, "InvalidKeyIdException") or event_raised_class("get_session_cipher", 0, "InvalidKeyIdException"))
+    raises(InvalidMessageException, may=True, ensures=event_raised_class("cipher.decryptMsg", 0, "InvalidMessageException") or event_raised_class("get_session_cipher", 0, "InvalidMessageException"))
+    raises(DuplicateMessageException, may=True, ensures=event_raised_class("cipher.decryptMsg", 0, "DuplicateMessageException") or event_raised_class("get_session_cipher", 0, "DuplicateMessageException"))
+    # an exception of the cipher that is none of these reaches the caller as it is (untrusted identity among them)
+    propagates("cipher.decryptMsg", ensures=not event_raised_class("cipher.decryptMsg", 0, "NoSessionException") and not event_raised_class("cipher.decryptMsg", 0, "InvalidKeyIdException") and not event_raised_class("cipher.decryptMsg", 0, "InvalidMessageException") and not event_raised_class("cipher.decryptMsg", 0, "DuplicateMessageException"))
+    propagates("get_session_cipher", ensures=not event_raised_class("get_session_cipher", 0, "NoSessionException") and not event_raised_class("get_session_cipher", 0, "InvalidKeyIdException") and not event_raised_class("get_session_cipher", 0, "InvalidMessageException") and not event_raised_class("get_session_cipher", 0, "DuplicateMessageException"))
+    propagates("WhisperMessage")
 
 
 @contract(MGR, "AxolotlManager.group_decrypt")
@@ -65,10 +72,12 @@ def group_decrypt(self: Obj("AxolotlManager"), groupid: Str, participantid: Str,
     ensures(n_events("get_group_cipher") == 1 and event_arg("get_group_cipher", 0, 0) == groupid and event_arg("get_group_cipher", 0, 1) == participantid)
     ensures(n_events("cipher.decrypt") == 1 and event_arg("cipher.decrypt", 0, 1) == data)
     ensures(result == stripped(event_result("cipher.decrypt", 0)))
-    raises(NoSessionException, may=True)
-    raises(InvalidMessageException, may=True)
-    raises(DuplicateMessageException, may=True)
-    propagates("*")
+    raises(NoSessionException, may=True, ensures=event_raised_class("cipher.decrypt", 0, "NoSessionException"))
+    raises(DuplicateMessageException, may=True, ensures=event_raised_class("cipher.decrypt", 0, "DuplicateMessageException"))
+    raises(InvalidMessageException, may=True, ensures=event_raised_class("cipher.decrypt", 0, "InvalidMessageException"))
+    # an exception of the cipher that is none of these reaches the caller as it is (untrusted identity among them)
+    propagates("cipher.decrypt", ensures=not event_raised_class("cipher.decrypt", 0, "NoSessionException") and not event_raised_class("cipher.decrypt", 0, "DuplicateMessageException") and not event_raised_class("cipher.decrypt", 0, "InvalidMessageException"))
+    propagates("get_group_cipher")
 
 
 # =====================================================================================================================
